@@ -478,6 +478,17 @@ func (u *Unit) loopClauses(fn *ssa.Function, l *Loop, kind string) []Clause {
 }
 
 func (u *Unit) checkInvariants(s *State, fn *ssa.Function, l *Loop, phase string) {
+	for _, c := range u.loopClauses(fn, l, "fresh-invariant") {
+		env := u.bodyEnv(s, fn)
+		cell, ok := env.lookupCell(c.Expr)
+		if !ok {
+			panic(abortUnit{fmt.Sprintf("%s:%d: unknown variable %s", c.File, c.Line, c.Expr)})
+		}
+		v := u.load(s, u.addrOf(s, cell))
+		if !s.isFreshSlice(v.S) {
+			u.pureViolation(s, fmt.Sprintf("slice %s does not (provably) hold storage allocated by this function at the loop %s", c.Expr, phase))
+		}
+	}
 	for _, c := range u.loopClauses(fn, l, "invariant") {
 		env := u.bodyEnv(s, fn)
 		g, err := env.formula(c.Expr)
@@ -499,6 +510,13 @@ func labelWithFn(label, fn string) string {
 }
 
 func (u *Unit) assumeInvariants(s *State, fn *ssa.Function, l *Loop) {
+	for _, c := range u.loopClauses(fn, l, "fresh-invariant") {
+		env := u.bodyEnv(s, fn)
+		if cell, ok := env.lookupCell(c.Expr); ok {
+			v := u.load(s, u.addrOf(s, cell))
+			s.freshSl[v.S] = true
+		}
+	}
 	for _, c := range u.loopClauses(fn, l, "invariant") {
 		env := u.bodyEnv(s, fn)
 		g, err := env.formula(c.Expr)
